@@ -2341,6 +2341,13 @@ func buildAckRanges(entries []*shareAckState, gaps []shareAckRange) (ranges []sh
 		if t == int8(AckRenew) {
 			hasRenew = true
 		}
+		// Gaps sit between delivered records of the same acquired range:
+		// interleave them by offset so the batches stay ascending (the
+		// broker rejects a batch that does not start after the prior one).
+		for len(gaps) > 0 && gaps[0].firstOffset < e.offset {
+			ranges = coalesceAppendRange(ranges, gaps[0])
+			gaps = gaps[1:]
+		}
 		ranges = coalesceAppendRange(ranges, shareAckRange{
 			firstOffset:  e.offset,
 			lastOffset:   e.offset,
